@@ -631,6 +631,78 @@ def c14(acc):
     return acc.finish()
 
 
+def mc_de(acc, mode, N, types, name, skip_doctype=True, emit=True, timeout=3000):
+    cfg = f"""SPECIFICATION Spec
+CONSTANTS
+  Mode = "{mode}"
+  N = {N}
+  Emit = {"TRUE" if emit else "FALSE"}
+  SkipDoctype = {"TRUE" if skip_doctype else "FALSE"}
+  Types = {{{', '.join('"%s"' % t for t in types)}}}
+INVARIANTS Inv_NoTwoTexts Inv_DeBounded Inv_Rewrite Inv_BaseReadsBack Inv_Inter{' Inv_Emit' if emit else ''}
+CHECK_DEADLOCK FALSE
+"""
+    r = tlc("MC_De", cfg, name=name, timeout=timeout, xss="512m")
+    acc.add_tlc(r, f"A:MC_De mode={mode} N={N} types={len(types)}")
+    path = None
+    if emit:
+        path = os.path.join(work_dir("beh-" + name), "behaviours.ndjson")
+        write_ndjson(path, r.tagged.get("REPLAY", []))
+    return r, path
+
+
+def de_replay(acc, path, mode, leg, extra=()):
+    summ, viol, _ = harness(["de-replay", "--file", path, "--prop", acc.pid, "--out-dir", REPLAY_DIR, "--mode", mode, "--seed", SEED, *extra])
+    acc.add_harness(summ, viol, leg)
+
+
+def c07(acc):
+    """Deserialization is total: a value or an error, never a panic."""
+    q = acc.tier == QUICK
+    acc.rule = ("(A) DeSM.tla: the deserializer's event pipeline (StartTrimmer, XmlReader lookahead / drain_text) on every token soup of <= N tokens over 15 tokens "
+                "(tags, text, blanks, CDATA, comment, PI, DOCTYPE, entity references incl. unknown, attributes, xsi:nil): the DeEvent stream never holds two "
+                "consecutive Text events (the lemma behind the unreachable!() sites), ends in Eof or an error, is bounded. (B) every soup (and, in the thorough tier, "
+                "every truncation of it) deserialized into all 20 family types + String, numbers, bool, (), Option, Vec, tuple, HashMap, IgnoredAny-containing "
+                "types through from_str and from_reader under catch_unwind; (C-style) token-level mutations and every-byte truncations of serialized family values. "
+                "non-trivial = soups with >= 2 markup tokens")
+    acc.trusted = SERDE_TRUST + ["a concrete panic is found by running the code; the spec supplies shapes and the justifying lemma"]
+    _, p = mc_de(acc, "soup", 4 if q else 5, ["F02"], "MC_De-soup")
+    de_replay(acc, p, "soup", "B:token soups x all target types x from_str/from_reader", extra=["--mutate", 0 if q else 1])
+    _, p2 = mc_de(acc, "rewrite", 1, ["F05", "F15", "F22"] if q else RT_TYPES, "MC_De-bases", timeout=3000)
+    summ, viol, _ = harness(["de-mutate", "--file", p2, "--prop", acc.pid, "--out-dir", REPLAY_DIR, "--seed", SEED, "--per-doc", 3 if q else 20])
+    acc.add_harness(summ, viol, "C:token-level mutations and every-byte truncations of serialized values")
+    return acc.finish()
+
+
+def c15(acc):
+    """Deserialized values do not depend on lexical presentation."""
+    q = acc.tier == QUICK
+    acc.rule = ("(A) MC_De rewrite mode: for every generated value of the listed family types, the serialized document under EVERY single rewrite at every applicable "
+                "site (comment / PI between any two tokens and inside text, whitespace between siblings of element-only content, text as CDATA, as decimal/hex "
+                "character references, <x/> vs <x></x>, attribute order, quote kind, spacing, prolog + leading comment, trailing comment/PI) and several "
+                "compositions: the DeEvent stream (names, attribute sets, merged unescaped text) is unchanged. (B) every rewritten document (incl. unknown attribute, "
+                "unknown first/last child where the type ignores unknown fields) deserialized with from_str must equal the original value. "
+                "non-trivial = values with more than 10 rewritten documents")
+    acc.trusted = SERDE_TRUST
+    types = ["F02", "F05", "F07", "F11", "F16", "F19", "F22"] if q else RT_TYPES
+    _, p = mc_de(acc, "rewrite", 1, types, "MC_De-rewrite", timeout=3400)
+    de_replay(acc, p, "rewrite", "B:rewritten documents deserialize to the original value")
+    return acc.finish()
+
+
+def c20(acc):
+    """Overlapped lists: interleaving siblings does not change the result."""
+    q = acc.tier == QUICK
+    acc.rule = ("(A) MC_De interleave mode: for every generated value of the structs with two/three list fields (scalars, attribute, nested same-named children), "
+                "every order-preserving interleaving of the children; the queue model DeSM!Held gives the number of events that must be buffered. (B) each interleaved "
+                "document deserialized without limit (must equal the value) and with event_buffer_size = 1..total+1: the value or TooManyEvents, TooManyEvents "
+                "whenever Held > limit, monotone in the limit. non-trivial = interleavings that need buffering")
+    acc.trusted = SERDE_TRUST
+    _, p = mc_de(acc, "interleave", 1, ["F22", "F23"], "MC_De-inter")
+    de_replay(acc, p, "interleave", "B:interleavings x buffer limits")
+    return acc.finish()
+
+
 def run_check(pid, tier):
     fn = REGISTRY.get(pid)
     if fn is None:
@@ -654,6 +726,9 @@ def replay(pid, path):
     if kind == "escape-replay":
         p = subprocess.run([build_harness(False), "escape-rerun", "--file", path], cwd=ROOT)
         return p.returncode
+    if kind == "de-replay":
+        p = subprocess.run([build_harness(False), "de-rerun", "--file", path], cwd=ROOT)
+        return p.returncode
     if kind == "serde-replay":
         p = subprocess.run([build_harness(False), "serde-rerun", "--file", path], cwd=ROOT)
         return p.returncode
@@ -674,4 +749,4 @@ def replay(pid, path):
     return 1
 
 
-REGISTRY = {"C01": c01, "C02": c02, "C03": c03, "C04": c04, "C05": c05, "C06": c06, "C08": c08, "C09": c09, "C10": c10, "C11": c11, "C12": c12, "C13": c13, "C14": c14, "C16": c16, "C17": c17, "C18": c18, "C19": c19}
+REGISTRY = {"C01": c01, "C02": c02, "C03": c03, "C04": c04, "C05": c05, "C06": c06, "C07": c07, "C08": c08, "C09": c09, "C10": c10, "C11": c11, "C12": c12, "C13": c13, "C14": c14, "C15": c15, "C16": c16, "C17": c17, "C18": c18, "C19": c19, "C20": c20}
